@@ -981,6 +981,80 @@ fn c10_game(rep: &Reporter, base: &Pos, d: usize, max_plies: usize, script: Opti
     (plies, mattered)
 }
 
+/// rook/king walkers: each side moves one piece around a closed cycle of squares; the whole position
+/// repeats every lcm(len_w, len_b) full moves. Returns the game as UCI moves (all reversible).
+fn periodic_game(base: &Pos, white_cycle: &[&str], black_cycle: &[&str], plies: usize) -> Option<Vec<String>> {
+    let mut p = base.clone();
+    let mut out = Vec::new();
+    let (mut wi, mut bi) = (0usize, 0usize);
+    for _ in 0..plies {
+        let (cyc, idx) = if p.stm == WHITE { (white_cycle, &mut wi) } else { (black_cycle, &mut bi) };
+        let u = format!("{}{}", cyc[*idx % cyc.len()], cyc[(*idx + 1) % cyc.len()]);
+        *idx += 1;
+        let m = p.find_legal_uci(&u)?;
+        if m.is_capture() || m.piece == PAWN {
+            return None;
+        }
+        p = p.make(&m);
+        out.push(u);
+    }
+    Some(out)
+}
+
+/// judge `go depth d` after `history` (from `base`) against the reference that applies BOTH draw
+/// rules: repetition over the whole reversible history and the fifty-move rule at the leaves
+fn c10_long_history_query(rep: &Reporter, base: &Pos, history: &[String], d: usize, searchmove: Option<&str>, print: bool) -> (bool, bool) {
+    let draw = verif::draw_score();
+    let contempt = verif::contempt();
+    let mut line = vec![base.clone()];
+    for u in history {
+        let q = line.last().unwrap().clone();
+        match q.find_legal_uci(u) {
+            Some(m) => line.push(q.make(&m)),
+            None => return (false, false),
+        }
+    }
+    let root = line.last().unwrap().clone();
+    if !root.has_legal_move() || RefSearch::occurrences(&line) >= 3 {
+        return (false, false); // C07's business
+    }
+    let mut sess = Session::new(false);
+    let extra = searchmove.map(|m| format!(" searchmoves {}", m)).unwrap_or_default();
+    let out = search_depth(&mut sess, base, history, d, &extra);
+    sess.quit();
+    let case = |x: Value| json!({"kind": "long_history", "base": base.to_fen(), "history": history, "depth": d, "searchmove": searchmove, "detail": x});
+    if let Some(pr) = &out.problem {
+        rep.report(format!("no_answer:{}", short(pr)), case(json!({"problem": pr})));
+        return (true, false);
+    }
+    let eval = |q: &Pos, l: bool| eval_fifty(q, l);
+    let sm: Option<Vec<String>> = searchmove.map(|m| vec![m.to_string()]);
+    let mut wants = Vec::new();
+    for c in [contempt, -contempt] {
+        let mut rs = RefSearch::new(&eval);
+        rs.history = line[..line.len() - 1].to_vec();
+        rs.repetition = Some(RepRule { draw, contempt: c });
+        wants.push(rs.root(&root, d, sm.as_deref()).0);
+    }
+    let mut rs0 = RefSearch::new(&eval);
+    let without_rule = rs0.root(&root, d, sm.as_deref()).0;
+    let matters = without_rule != wants[0];
+    let got = match out.score {
+        Some(Score::Centipawn { score }) => Some(score),
+        _ => None,
+    };
+    if print {
+        println!("after {} plies (half-move clock {}): engine {:?}; reference with repetition rule {:?}, without {}", history.len(), root.half, out.score, wants, without_rule);
+    }
+    let mate_expected = wants.iter().any(|w| verif::is_checkmate_value(*w));
+    if !mate_expected && got != Some(wants[0]) && got != Some(wants[1]) {
+        let far = root.half >= 100;
+        let sig = if got == Some(without_rule) { if far { "repetition_over_more_than_100_plies_ignored" } else { "repetition_in_a_long_history_ignored" } } else { "long_history:value_differs_from_reference" };
+        rep.report(format!("{}:depth{}", sig, d), case(json!({"expected": wants, "reference_without_repetition_rule": without_rule, "actual": score_json(&out.score), "halfmove_clock_at_root": root.half})));
+    }
+    (true, matters)
+}
+
 pub fn run_c10(tier: Tier) -> i32 {
     let started = Instant::now();
     let rep = Reporter::new("C10");
@@ -1355,6 +1429,64 @@ pub fn run_c10(tier: Tier) -> i32 {
     });
     fams.push(json!({"family": "whole games played by the engine against itself on one instance, go depth 1/2/3 at every ply, value against the reference with the repetition rule over the real history", "games": game_jobs.len(), "searches_judged": game_plies.load(Ordering::Relaxed), "searches_where_the_repetition_rule_changes_the_reference_value": game_matter.load(Ordering::Relaxed), "secs": t0.elapsed().as_secs_f64()}));
 
+    // ---- (a5) long reversible histories: occurrences of one position 50 .. 75 plies apart, so that the
+    // third one falls beyond half-move clock 100 (the fifty-move zone, clocks up to 150 are in scope)
+    // and the first one lies more than 100 plies back
+    let t0 = Instant::now();
+    let long_n = AtomicU64::new(0);
+    let long_matter = AtomicU64::new(0);
+    let long_matter_far = AtomicU64::new(0);
+    {
+        // base: rooks and kings, a pawn each so that values are not symmetric; no castling rights
+        let base = Pos::from_fen("4k2r/6p1/8/8/8/8/1P6/R3K3 w - - 0 40").unwrap();
+        let a_file = ["a1", "a2", "a3", "a4", "a5", "a6", "a7"];
+        let h_file = ["h8", "h7", "h6", "h5", "h4", "h3", "h2"];
+        // (white cycle length, black cycle length): period in plies = 2 * lcm
+        let shapes: &[(usize, usize)] = if tier == Tier::Quick { &[(7, 4), (5, 6), (7, 5), (3, 2)] } else { &[(7, 4), (5, 6), (7, 5), (3, 2), (7, 6), (5, 7), (6, 5), (4, 3), (7, 2)] };
+        let mut queries: Vec<(Vec<String>, usize, Option<String>)> = Vec::new();
+        for &(cw, cb) in shapes {
+            let game = match periodic_game(&base, &a_file[..cw], &h_file[..cb], 150) {
+                Some(g) => g,
+                None => {
+                    rep.machinery(format!("periodic game ({}, {}) could not be generated", cw, cb));
+                    continue;
+                }
+            };
+            let lcm = (1..).map(|k| k * cw).find(|v| v % cb == 0).unwrap();
+            let period = 2 * lcm;
+            // every history length whose continuation can complete an occurrence, +- 2 plies around
+            // the multiples of the period, and a sweep of every 7th length
+            for n in 0..game.len() {
+                let near = (1..=3).any(|k| { let t = (k * period) as i64; (n as i64 - t).abs() <= 2 });
+                if near || n % 7 == 0 {
+                    let next = game[n].clone();
+                    queries.push((game[..n].to_vec(), 1, Some(next.clone())));
+                    queries.push((game[..n].to_vec(), 2, None));
+                    if near {
+                        queries.push((game[..n].to_vec(), 1, None));
+                        queries.push((game[..n].to_vec(), 2, Some(next)));
+                    }
+                }
+            }
+        }
+        par_map_fine(&queries, |(hist, d, sm)| {
+            let (ran, matters) = c10_long_history_query(&rep, &base, hist, *d, sm.as_deref(), false);
+            if ran {
+                long_n.fetch_add(1, Ordering::Relaxed);
+            }
+            if matters {
+                long_matter.fetch_add(1, Ordering::Relaxed);
+                if hist.len() >= 100 {
+                    long_matter_far.fetch_add(1, Ordering::Relaxed);
+                }
+            }
+        });
+    }
+    fams.push(json!({"family": "long reversible histories (periodic rook walks, position repeats every 12..70 plies, up to 150 plies), go depth 1/2 with and without searchmoves, reference with repetition AND fifty-move rule", "searches": long_n.load(Ordering::Relaxed), "searches_where_the_repetition_rule_changes_the_reference_value": long_matter.load(Ordering::Relaxed), "of_those_with_100_or_more_plies_of_history": long_matter_far.load(Ordering::Relaxed), "secs": t0.elapsed().as_secs_f64()}));
+    if long_matter_far.load(Ordering::Relaxed) == 0 {
+        rep.machinery("vacuous: the repetition rule never mattered beyond 100 plies of history");
+    }
+
     // ---- (b) fifty-move rule
     let t0 = Instant::now();
     let fifty_roots = ["8/8/8/4k3/8/8/3Q4/4K3 w - - 0 80", "8/8/8/4k3/8/8/3Q4/4K3 b - - 0 80", "8/8/8/4k3/8/8/3R4/4K3 w - - 0 80", "8/8/4k3/8/8/3P4/8/4K3 w - - 0 80", "8/8/4k3/8/8/3P4/8/4K3 b - - 0 80", "4k3/3q4/8/8/4K3/8/8/8 b - - 0 80", "4k3/3r4/8/8/4K3/8/8/8 w - - 0 80", "r3k3/8/8/8/8/8/4P3/4K2R w K - 0 80"];
@@ -1613,6 +1745,11 @@ pub fn replay(id: &str, case: &Value) -> i32 {
             if out.score != f.score {
                 rep.report("history_of_an_earlier_position_command_counted".to_string(), json!({"kind": "history_leak", "base": p.to_fen(), "history": moves, "cut": cut, "searchmove": sm}));
             }
+        }
+        ("C10", "long_history") => {
+            let moves: Vec<String> = case["history"].as_array().map(|a| a.iter().map(|v| v.as_str().unwrap_or("").to_string()).collect()).unwrap_or_default();
+            let sm = case["searchmove"].as_str().map(|s| s.to_string());
+            c10_long_history_query(&rep, &p, &moves, depth, sm.as_deref(), true);
         }
         ("C10", "cycle") => {
             let moves: Vec<String> = case["history"].as_array().map(|a| a.iter().map(|v| v.as_str().unwrap_or("").to_string()).collect()).unwrap_or_default();
